@@ -77,27 +77,28 @@ def parseOptVecs (toks : List String) : Option (List (Option (List Nat))) :=
 /-- does the EXACT run of the modelled elimination (the same algorithm, over ℚ) at the first regulariser
     end on the exact identity? Then (theorems `solve_equiv`, `solve_exact_of_identity`) its result is THE
     solution of `(A + ε₀I) X = B`; an f64 run of a well-conditioned such system has no excuse to fail or
-    to move to a larger regulariser. (For the spurious-failure observation `[[1,2,0],[2,5,0],[0,0,1]]`
-    the exact run fails too, so that input is not judged by the strict clauses.) -/
+    to move to a larger regulariser. (Before the repair of the pivot rule the exact run of the
+    spurious-failure observation `[[1,2,0],[2,5,0],[0,0,1]]` failed too; with pivoting by magnitude it
+    succeeds and that input is judged like any other.) -/
 def exactRunOk (n : Nat) (a b : Mat Rat) : Bool :=
-  let st := backfill (reduce (echelon constsQ.fmin n (fillZero (ladderQ.headD 0) a, b)))
+  let st := backfill (reduce (echelon n (fillZero (ladderQ.headD 0) a, b)))
   st.1 == Q.identity n
 
 /-- largest elimination multiplier `|a_ik / pivot|` met by the EXACT run of `echelon` (mirrors
-    `echelonLoop`): the pivot search takes the largest SIGNED candidate, which can be tiny (e.g. `-(2/3)ε`
-    next to `-0.375`), so the multipliers are not bounded by 1 as with max-|·| pivoting -/
-def multLoop (fmin : Rat) (m n : Nat) : Nat → Nat → Nat → Mat Rat × Mat Rat → Rat → Rat
+    `echelonLoop`). With pivoting by magnitude it is ≤ 1 (theorem `multiplier_le_one`); under the former
+    signed-max rule it could be huge (`-(2/3)ε` chosen next to `-0.375`) -/
+def multLoop (m n : Nat) : Nat → Nat → Nat → Mat Rat × Mat Rat → Rat → Rat
   | 0, _, _, _, g => g
   | fuel + 1, h, k, (left, right), g =>
     if h < m ∧ k < n then
-      let i := (findMax fmin left k h m).1
-      if isZero (get left i k) then multLoop fmin m n fuel h (k + 1) (left, right) g
+      let i := (findMax left k h m).1
+      if isZero (get left i k) then multLoop m n fuel h (k + 1) (left, right) g
       else
         let sw := if h ≠ i then (swapRows left h i, swapRows right h i) else (left, right)
         let piv := get sw.1 h k
         let g' := (List.range' (h + 1) (m - (h + 1))).foldl
           (fun acc r => Q.maxq acc (Q.absq (get sw.1 r k / piv))) g
-        multLoop fmin m n fuel (h + 1) (k + 1) (clearBelow h k sw.1 sw.2) g'
+        multLoop m n fuel (h + 1) (k + 1) (clearBelow h k sw.1 sw.2) g'
     else g
 
 /-- growth factor `ρ ≥ 1` of the exact run at the first regulariser: the larger of the largest `echelon`
@@ -107,8 +108,8 @@ def multLoop (fmin : Rat) (m n : Nat) : Nat → Nat → Nat → Mat Rat × Mat R
     is chosen (observation `corpus/C15/observation-tiny-pivot.req`) -/
 def growthFactor (n : Nat) (a b : Mat Rat) : Rat :=
   let st0 := (fillZero (ladderQ.headD 0) a, b)
-  let g := multLoop constsQ.fmin a.length n n 0 0 st0 1
-  let red := reduce (echelon constsQ.fmin n st0)
+  let g := multLoop a.length n n 0 0 st0 1
+  let red := reduce (echelon n st0)
   Q.maxq g (red.1.foldl (fun mx r => Q.maxq mx (Q.normInfV r)) 1)
 
 /-- `κ∞` below which a failure / a larger regulariser is not excused when the exact run succeeds -/
@@ -276,7 +277,7 @@ def specGauss (n m : Nat) (a b : Mat Float) (impl : List String) : String :=
       let big := decide (aq.foldl (fun mx r => Q.maxq mx (Q.normInfV r)) 0 ≥ 100000000)
       if singular && big then "bad:silently_wrong_singular_illscaled" else
       -- narrow signature of the finding C15-silently-wrong-tiny-pivot: the EXACT run of the elimination at
-      -- ε₀ already has a multiplier ≥ 1e12 (the signed-max pivot search chose a regulariser-sized entry
+      -- ε₀ already has a multiplier ≥ 1e12 (REPAIRED in /repo: the former signed-max pivot search chose a regulariser-sized entry
       -- such as -(5/13)·1e-8 over entries of size 1e6), so the f64 run is rounding noise from there on
       if decide (growthFactor n aq bq ≥ 1000000000000) then "bad:silently_wrong_tiny_pivot" else
       "bad:silently_wrong"
